@@ -753,14 +753,11 @@ int tls12_do_accept(TLS_CONNECT *conn)
 		tls_send_alert(conn, TLS_alert_insufficient_security);
 		goto end;
 	}
+	server_exts_len = 0;
 	if (client_exts) {
-		server_exts_len = 0;
 		curve = TLS_curve_sm2p256v1;
 
 		tls_process_client_hello_exts(client_exts, client_exts_len, server_exts, &server_exts_len, sizeof(server_exts));
-
-
-
 	}
 	sm3_update(&sm3_ctx, record + 5, recordlen - 5);
 	if (client_verify)
